@@ -58,6 +58,9 @@ type Write struct {
 	Via  string `json:"via"`            // tokens | copy | encode
 	NS   string `json:"ns,omitempty"`   // name space given to the written iq: "" or the stream's
 	Text string `json:"text,omitempty"` // informational: the element as the program builds it
+	// Abandon > 0: only the first Abandon tokens of the element are written (it
+	// is left open in mid-element); only on the last write of a program.
+	Abandon int `json:"abandon,omitempty"`
 }
 
 // Program is the behaviour of the handler for one incoming element.
@@ -255,6 +258,30 @@ func genStanzaRaw(r *rand.Rand, o sess.Opts, idx int, local string) string {
 	if r.Intn(8) == 0 {
 		attrs = append(attrs, " xml:lang='en'")
 	}
+	if (kind == "iq" && r.Intn(12) == 0) || (kind != "iq" && kind != "other" && r.Intn(30) == 0) {
+		// qualified attributes named like stanza attributes: they are not the
+		// stanza's id/type/from/to, whether the prefix is bound to the element's
+		// own namespace or to a foreign one (the shuffle below puts them before or
+		// after the unqualified ones)
+		qns := "urn:c07:q"
+		if r.Intn(3) != 0 {
+			qns = elemNS(nsAttr, o)
+		}
+		attrs = append(attrs, " xmlns:c='"+qns+"'")
+		for i, m := 0, 1+r.Intn(2); i < m; i++ {
+			switch r.Intn(4) {
+			case 0:
+				attrs = append(attrs, " c:type='"+pick(r, "get", "set", "result", "error")+"'")
+			case 1:
+				attrs = append(attrs, fmt.Sprintf(" c:id='x%d'", idx))
+			case 2:
+				attrs = append(attrs, " c:from='mallory@example.org/x'")
+			default:
+				attrs = append(attrs, " c:to='mallory@example.org'")
+			}
+		}
+		attrs = dedupe(attrs)
+	}
 	r.Shuffle(len(attrs), func(i, j int) { attrs[i], attrs[j] = attrs[j], attrs[i] })
 	for _, a := range attrs {
 		sb.WriteString(a)
@@ -299,6 +326,30 @@ func genStanzaRaw(r *rand.Rand, o sess.Opts, idx int, local string) string {
 	return sb.String()
 }
 
+// elemNS is the namespace a generated top-level element ends up in.
+func elemNS(nsAttr string, o sess.Opts) string {
+	if i := strings.Index(nsAttr, "xmlns='"); i >= 0 {
+		rest := nsAttr[i+len("xmlns='"):]
+		return rest[:strings.IndexByte(rest, '\'')]
+	}
+	return o.NS()
+}
+
+// dedupe drops repeated attribute names (the text before '=').
+func dedupe(attrs []string) []string {
+	seen := map[string]bool{}
+	var out []string
+	for _, a := range attrs {
+		k := a[:strings.IndexByte(a, '=')]
+		if seen[k] {
+			continue
+		}
+		seen[k] = true
+		out = append(out, a)
+	}
+	return out
+}
+
 func genProgram(r *rand.Rand, streamNS string) Program {
 	var p Program
 	rd := func() int {
@@ -336,6 +387,14 @@ func genProgram(r *rand.Rand, streamNS string) Program {
 			w.NS = streamNS
 		}
 		p.Writes = append(p.Writes, w)
+	}
+	if len(p.Writes) > 0 && r.Intn(10) == 0 {
+		// the program stops in mid-element: a reply start tag (and payload start
+		// tag), or the start of some other element
+		last := &p.Writes[len(p.Writes)-1]
+		last.Kind = pick(r, "result-payload", "result-payload", "error", "message", "nested", "get", "presence-open")
+		last.Via = "tokens"
+		last.Abandon = 1 + r.Intn(2)
 	}
 	switch x := r.Intn(23); {
 	case x < 15:
@@ -466,6 +525,8 @@ type writeRec struct {
 	Reply  bool // the program built it as a reply (result/error) with the request's id, at top level, in the stream's namespace
 	Ambig  bool // whether it counts is not decided by the statement (other stanza namespace)
 	Err    error
+	// Abandoned: the program stopped in mid-element (the session has to end it)
+	Abandoned bool
 }
 
 type runState struct {
@@ -549,6 +610,8 @@ func (st *runState) build(w Write, reqID, reqFrom string, marker string) (toks [
 		return el(xml.Name{Space: w.NS, Local: "message"}, append(at("type", "result", "id", reqID), hw), el(xml.Name{Local: "body"}, nil, xml.CharData("hi"))...), false, false
 	case "presence":
 		return el(xml.Name{Space: w.NS, Local: "presence"}, append(at("type", "error", "id", reqID), hw)), false, false
+	case "presence-open":
+		return el(xml.Name{Space: w.NS, Local: "presence"}, []xml.Attr{hw}, el(xml.Name{Local: "show"}, nil, xml.CharData("away"))...), false, false
 	case "foreign-iq":
 		return el(xml.Name{Space: nsOther, Local: "iq"}, append(at("type", "result", "id", reqID), hw)), false, false
 	case "otherns-iq":
@@ -629,6 +692,10 @@ func (st *runState) exec(rw xmlstream.TokenReadEncoder) error {
 			}
 			fallthrough
 		default:
+			if w.Abandon > 0 && w.Abandon < len(toks) {
+				toks = toks[:w.Abandon]
+				rec.Abandoned = true
+			}
 			for _, t := range toks {
 				if rec.Err = rw.EncodeToken(t); rec.Err != nil {
 					break
@@ -1004,8 +1071,29 @@ func judge(c *core.Case, sc Scenario, o sess.Opts, st *runState, written []byte,
 	}
 	used := make([]bool, len(lib))
 
+	abandonedBefore := false
+	anyQualified := false
 	for i, n := range st.exp {
 		cl := classes[i]
+		// a finding about an element that carries qualified attributes named like
+		// stanza attributes gets a key of its own
+		suf := ""
+		switch qualifiedStanzaAttrs(n) {
+		case "own":
+			suf = ":qualified-attr"
+			anyQualified = true
+			c.Count("incoming_qualified_attr_own_ns", 1)
+		case "foreign":
+			suf = ":qualified-attr"
+			anyQualified = true
+			c.Count("incoming_qualified_attr_foreign_ns", 1)
+		}
+		viol := func(key, format string, a ...any) {
+			if strings.HasPrefix(key, "autoreply:") {
+				key += suf
+			}
+			c.Violate(key, format, a...)
+		}
 		prog := sc.Programs[i]
 		c.Count("stanzas_"+cl.Name, 1)
 		if strings.HasPrefix(st.rets[i], "wrap-") {
@@ -1040,11 +1128,20 @@ func judge(c *core.Case, sc Scenario, o sess.Opts, st *runState, written []byte,
 		// hIntended: replies the program built.
 		var hReplies, hIntended, hDup, ambig int
 		kinds := map[string]bool{}
+		abandonedNonReply := false
+		for _, w := range st.writes {
+			if w.Stanza == i-1 && w.Abandoned && w.Err == nil {
+				abandonedBefore = true
+			}
+		}
 		for _, w := range st.writes {
 			if w.Stanza != i {
 				continue
 			}
 			kinds[w.Kind] = true
+			if w.Abandoned && !w.Reply {
+				abandonedNonReply = true
+			}
 			if w.Err != nil {
 				c.Count("handler_write_errors", 1)
 				continue
@@ -1094,6 +1191,8 @@ func judge(c *core.Case, sc Scenario, o sess.Opts, st *runState, written []byte,
 				switch {
 				case hIntended > 0:
 					return "handler-reply-lost"
+				case abandonedNonReply:
+					return "abandoned-element"
 				case sc.Collision != nil:
 					return "id-collision"
 				case st.rets[i] == "wrap-eof":
@@ -1118,16 +1217,19 @@ func judge(c *core.Case, sc Scenario, o sess.Opts, st *runState, written []byte,
 			switch {
 			case hReplies > 0:
 				c.Count("answered_by_handler", 1)
+				if abandonedBefore {
+					c.Count("answered_by_handler_after_an_abandoned_element", 1)
+				}
 				if hDup > 0 {
-					c.Violate("reply:double:"+modeKeyOf(sc)+":handler-reply-duplicated", "an element the handler wrote once for %s (id %q) is on the wire more than once\nwire: %s", cl.Name, cl.ID, wireStr(wire))
+					viol("reply:double:"+modeKeyOf(sc)+":handler-reply-duplicated", "an element the handler wrote once for %s (id %q) is on the wire more than once\nwire: %s", cl.Name, cl.ID, wireStr(wire))
 				}
 				if libReplies > 0 {
-					c.Violate("reply:double:"+modeKeyOf(sc)+":handler-replied", "%s id %q: the handler wrote its own reply and the library added %d more\nwire: %s", cl.Name, cl.ID, libReplies, wireStr(wire))
+					viol("reply:double:"+modeKeyOf(sc)+":handler-replied", "%s id %q: the handler wrote its own reply and the library added %d more\nwire: %s", cl.Name, cl.ID, libReplies, wireStr(wire))
 				}
 			case libReplies == 0:
-				c.Violate("reply:missing:"+modeKeyOf(sc)+":"+cause(), "%s id %q (mode %s, program %+v): no reply IQ (type result/error, that id) on the wire and Serve returned %v\nwire: %s", cl.Name, cl.ID, sc.Mode, prog, serveErr, wireStr(wire))
+				viol("reply:missing:"+modeKeyOf(sc)+":"+cause(), "%s id %q (mode %s, program %+v): no reply IQ (type result/error, that id) on the wire and Serve returned %v\nwire: %s", cl.Name, cl.ID, sc.Mode, prog, serveErr, wireStr(wire))
 			case libReplies > 1:
-				c.Violate("reply:double:"+modeKeyOf(sc)+":library-twice", "%s id %q: the library added %d replies\nwire: %s", cl.Name, cl.ID, libReplies, wireStr(wire))
+				viol("reply:double:"+modeKeyOf(sc)+":library-twice", "%s id %q: the library added %d replies\nwire: %s", cl.Name, cl.ID, libReplies, wireStr(wire))
 			default:
 				c.Count("answered_by_library", 1)
 				if sc.WS {
@@ -1149,7 +1251,7 @@ func judge(c *core.Case, sc Scenario, o sess.Opts, st *runState, written []byte,
 					return x.Name.Space == nsStanzaErr && x.Name.Local == "service-unavailable"
 				})
 				if rep.Attr("type") != "error" || su == nil {
-					c.Violate("reply:shape:"+modeKeyOf(sc), "%s id %q: the library's reply is not a service-unavailable error: %s", cl.Name, cl.ID, rep)
+					viol("reply:shape:"+modeKeyOf(sc), "%s id %q: the library's reply is not a service-unavailable error: %s", cl.Name, cl.ID, rep)
 				}
 				from := n.Attr("from")
 				if from != "" {
@@ -1161,18 +1263,28 @@ func judge(c *core.Case, sc Scenario, o sess.Opts, st *runState, written []byte,
 					case from == own && to == "":
 						c.Count("reply_to_own_bare_unaddressed", 1)
 					default:
-						c.Violate("reply:to:"+modeKeyOf(sc)+":"+fromClass(from), "%s id %q from %q: the library's reply is addressed to %q: %s", cl.Name, cl.ID, from, to, rep)
+						key := "reply:to:" + modeKeyOf(sc) + ":" + fromClass(from)
+						if hasQualified(n, "from") {
+							// which code chose the address: the multiplexer's fallback
+							// (stanza.NewIQ) or the session's default reply
+							who := "session"
+							if sc.Mode == "mux-unreg" && cl.HasPayload {
+								who = "mux-fallback"
+							}
+							key = "reply:to:" + who + ":qualified-from"
+						}
+						viol(key, "%s id %q from %q: the library's reply is addressed to %q: %s", cl.Name, cl.ID, from, to, rep)
 					}
 				}
 			}
 			if len(added) > libReplies && hReplies == 0 && libReplies == 1 {
 				// more unmarked elements with that id than the one reply
-				c.Violate("autoreply:extra-for-request", "%s id %q: besides the reply the library added %d more elements with that id\nwire: %s", cl.Name, cl.ID, len(added)-libReplies, wireStr(wire))
+				viol("autoreply:extra-for-request", "%s id %q: besides the reply the library added %d more elements with that id\nwire: %s", cl.Name, cl.ID, len(added)-libReplies, wireStr(wire))
 			}
 		case cl.NoReply:
 			c.Count("must_not_be_answered", 1)
 			if len(added) > 0 {
-				c.Violate("autoreply:"+cl.Name, "%s (id %q, mode %s): the library added %d element(s) the handler did not write: %s", cl.Name, cl.ID, sc.Mode, len(added), added[0])
+				viol("autoreply:"+cl.Name, "%s (id %q, mode %s): the library added %d element(s) the handler did not write: %s", cl.Name, cl.ID, sc.Mode, len(added), added[0])
 			}
 		default:
 			c.Count("unconstrained", 1)
@@ -1193,7 +1305,11 @@ func judge(c *core.Case, sc Scenario, o sess.Opts, st *runState, written []byte,
 		if anyUnconstrained {
 			c.Count("unattributed_additions_allowed", rest)
 		} else {
-			c.Violate("autoreply:unattributed", "the library added %d element(s) that answer no request of the stream, e.g. %s\nwire: %s", rest, first, wireStr(wire))
+			usuf := ""
+			if anyQualified {
+				usuf = ":qualified-attr"
+			}
+			c.Violate("autoreply:unattributed"+usuf, "the library added %d element(s) that answer no request of the stream, e.g. %s\nwire: %s", rest, first, wireStr(wire))
 		}
 	}
 	// every marked element the programs wrote without error is on the wire once
@@ -1203,6 +1319,44 @@ func judge(c *core.Case, sc Scenario, o sess.Opts, st *runState, written []byte,
 		}
 	}
 	c.Count("handler_elements_written", len(st.writes))
+	for _, w := range st.writes {
+		if w.Abandoned && w.Err == nil {
+			c.Count("handler_abandoned_element", 1)
+			if w.Reply {
+				c.Count("handler_abandoned_reply", 1)
+			} else {
+				c.Count("handler_abandoned_other_element", 1)
+			}
+		}
+	}
+}
+
+func hasQualified(n *xmltree.Node, local string) bool {
+	for k := range n.Attrs {
+		if k.Space != "" && k.Space != "http://www.w3.org/XML/1998/namespace" && k.Local == local {
+			return true
+		}
+	}
+	return false
+}
+
+// qualifiedStanzaAttrs reports whether n has attributes named id/type/from/to
+// in a namespace: "own" (the element's own namespace), "foreign" or "".
+func qualifiedStanzaAttrs(n *xmltree.Node) string {
+	out := ""
+	for k := range n.Attrs {
+		if k.Space == "" || k.Space == "http://www.w3.org/XML/1998/namespace" {
+			continue
+		}
+		switch k.Local {
+		case "id", "type", "from", "to":
+			if k.Space == n.Name.Space {
+				return "own"
+			}
+			out = "foreign"
+		}
+	}
+	return out
 }
 
 func attrOf(se *xml.StartElement, local string) string {
@@ -1219,7 +1373,7 @@ func kindSig(p Program) string {
 		"result": "reply", "error": "reply", "result-payload": "reply",
 		"other-id": "other-id", "get": "request", "set": "request",
 		"type-empty": "pseudo", "type-unknown": "pseudo", "type-absent": "pseudo", "type-upper": "pseudo",
-		"nested": "nested", "message": "non-iq", "presence": "non-iq", "foreign-iq": "foreign", "otherns-iq": "otherns",
+		"nested": "nested", "message": "non-iq", "presence": "non-iq", "presence-open": "non-iq", "foreign-iq": "foreign", "otherns-iq": "otherns",
 	}
 	have := map[string]bool{}
 	for _, w := range p.Writes {
@@ -1310,6 +1464,8 @@ func Prop() *core.Prop {
 			"collision_cases", "collision_barrier_reached", "collision_own_request_on_wire", "collision_request_reached_handler", "collision_requester_got_response",
 			"collision_via_SendIQ", "collision_via_SendIQElement", "collision_via_UnmarshalIQ", "collision_via_SendMessage", "collision_via_SendPresence",
 			"session_websocket", "ws_answered_by_library", "mode_serve-nil", "serve_nil_answered_by_library",
+			"handler_abandoned_reply", "handler_abandoned_other_element", "answered_by_handler_after_an_abandoned_element",
+			"incoming_qualified_attr_own_ns", "incoming_qualified_attr_foreign_ns",
 			"handler_returned_wrapping_error", "request_handler_returned_wrapped_eof",
 			"iq_handler_returned_stanza_error_bare", "iq_handler_returned_stanza_error_mux",
 			"stanzas_iq-get", "stanzas_iq-set", "stanzas_iq-result", "stanzas_iq-error", "stanzas_message", "stanzas_presence", "stanzas_other",
